@@ -465,6 +465,12 @@ def make_solver(kind, dim, npop=None):
 def apply_init(s, init):
     """install the initial points described by a case's 'init' entry"""
     if init['kind'] == 'point':
+        if init.get('as_array'):
+            # the guess is the caller's own float64 array, which the caller goes on using: returned so that the harness
+            # can overwrite it later (the solver must have taken a copy)
+            buf = np.array(FL(init['x0']), dtype=float)
+            s.SetInitialPoints(buf)
+            return buf
         s.SetInitialPoints(FL(init['x0']))
     elif init['kind'] == 'sampled':
         # a user-supplied distribution (numpy's global stream, seeded with the case): integer-valued ones included
